@@ -276,6 +276,10 @@ def convert_and_judge(ssc, beh, stmpl, ctmpl, labels):
         need(match, lambda: f"returned properties {_short(got_props)} charts {_short(got_charts)}, expected {expected()}; {ctx()}")
         for c in result.charts:
             need(type(c) is SMChart, lambda: f"result chart is {type(c).__name__}")
+        # templates respected: extra NOTES components come from the simfile template's own charts / the chart template
+        got_extra = [list(c.extradata) if c.extradata else [] for c in result.charts]
+        exp_extra = ([e for _, e in st_snap[1]] if stmpl is not None else []) + [list(ct_snap[1]) if ctmpl is not None else []] * len(src_charts)
+        need(got_extra == exp_extra, lambda: f"extra chart components of the result {got_extra!r}, expected {exp_extra!r} (from the templates); {ctx()}")
         unmodified("by the conversion")
         foreign = []
         if stmpl is not None:
@@ -518,7 +522,7 @@ def s_ssc2sm(draw):
         if key == "WARPS":
             drawn = wsel
             if drawn in ("nondefault", "padded-nondefault"):
-                props.append([key, _value_for("simfile", key, drawn, pad).replace("9.000=9", "4.000=1.000")])
+                props.append([key, _value_for("simfile", key, drawn, pad).replace("9.000=9", draw(st.sampled_from(["4.000=1.000", "4.000=1.000", "16.000=0.000", "4.000=0.000,8.000=0.000", "4.000=0.000,8.000=2.000"])))])
                 continue
         s = pick_state("simfile", key, drawn, free)
         if key == "WARPS" and s in ("padded", "default", "alt-default"):
